@@ -69,6 +69,8 @@ def run(rep, tier, seed, budget):
         toks = make_tokens("i", min(L, avail), ALPHA)
         it = iter(list(enumerate(toks)))
         q = dec._read_index_from_selfies(it, n_symbols=L)
+        if isinstance(q, tuple):  # (value, symbols consumed)
+            q = q[0]
         want = z3.IntVal(0)
         for j in range(L):
             t = toks[j] if j < len(toks) else None
